@@ -1,5 +1,5 @@
 CONSTANTS EP = {"e1", "e2", "e3"}  Models = {"alphaone", "bravotwo"}  Ask = {"alphaone", "bravotwo", "zuluniner"}
-          Kinds = {"ollama", "vllm"}  Routes = {"proxy", "ollama", "vllm", "anthropic"}  Ops = {}  MaxLen = 0
+          Kinds = {"ollama", "sglang"}  Routes = {"proxy", "ollama", "sglang", "anthropic"}  Ops = {}  MaxLen = 0
 CONSTANT KnownDeviations = ${KnownDeviations}
 SPECIFICATION TraceSpec
 CONSTRAINT HW
